@@ -419,9 +419,17 @@ func runDispatch(c *rig.Ctx, cs DCase, record bool, st *stats) bool {
 		at := m.ImplBad.At
 		return fail("judge", "c03."+m.ImplBad.What, fmt.Sprintf("translated op %d (%s) observed %s: the property's judge rejects it (%s)", at, ops[at].Op, lib.CanonOut(impl[at].Out), m.ImplBad.What), impl)
 	}
-	// requests under a policy with an explicit subset are deterministic: the model must name the same stub
+	// with explicit subsets only, every answer is determined: the model must name the same stub. (A request without
+	// subset iterates a Go map inside the dispatcher; its order is not observable here, and it can share a cursor with an
+	// explicit subset, so histories containing one are judged but not compared.)
+	fullSet := false
 	for i := range ops {
-		if ops[i].Op == "pop" && i > 0 && ops[i-1].Op == "match" && ops[i-1].Order == nil {
+		if ops[i].Op == "match" && ops[i].Order != nil {
+			fullSet = true
+		}
+	}
+	for i := range ops {
+		if !fullSet && ops[i].Op == "pop" {
 			if a, b := lib.CanonOut(m.Steps[i].Out), lib.CanonOut(impl[i].Out); a != b {
 				return fail("diff", "c03.dispatch-out", fmt.Sprintf("translated op %d: model %s, observed %s", i, a, b), impl)
 			}
